@@ -458,6 +458,36 @@ def float_monitors(chk, tier):
                     prop2 = qr.ReducedDensityMatrixPropagator(ta, ham2)
                     prop2.setDtRefinement(fine * nref)
                     out2 = np.array(prop2.propagate(qr.ReducedDensityMatrix(data=rho0.copy()), method=method_of(L)).data)
+                    # the same Hamiltonian object re-used in another representation: the dynamics must not depend on the basis
+                    # in which it is computed (the order-L step commutes with an orthogonal change of basis exactly)
+                    prop3 = qr.ReducedDensityMatrixPropagator(ta, ham)
+                    if nref > 1:
+                        prop3.setDtRefinement(nref)
+                    rdm = qr.ReducedDensityMatrix(data=rho0.copy())
+                    with qr.eigenbasis_of(ham):
+                        ev3 = prop3.propagate(rdm, method=method_of(L))
+                        ev3.convert_from_RWA(ham)
+                    out3 = np.array(ev3.data)
+                    dev3 = float(np.max(np.abs(out3 - out)))
+                    if dev3 > 1e-9:
+                        chk.violation("float:rwa_basis_dependent", "RWA dynamics computed inside eigenbasis_of(H) with the Hamiltonian object used before in the site basis "
+                                      "differs from the site-basis computation by %g (n=%d L=%d Nref=%d)" % (dev3, n, L, nref), "monitor", c)
+                    ham_b = qr.Hamiltonian(data=Hr.copy())
+                    ham_b.set_rwa([0, 1])
+                    with qr.eigenbasis_of(ham_b):
+                        prop4 = qr.ReducedDensityMatrixPropagator(ta, ham_b)
+                        if nref > 1:
+                            prop4.setDtRefinement(nref)
+                        ev4 = prop4.propagate(qr.ReducedDensityMatrix(data=rho0.copy()), method=method_of(L))
+                    prop5 = qr.ReducedDensityMatrixPropagator(ta, ham_b)
+                    if nref > 1:
+                        prop5.setDtRefinement(nref)
+                    ev5 = prop5.propagate(qr.ReducedDensityMatrix(data=rho0.copy()), method=method_of(L))
+                    ev5.convert_from_RWA(ham_b)
+                    dev5 = float(np.max(np.abs(np.array(ev5.data) - out)))
+                    if dev5 > 1e-9:
+                        chk.violation("float:rwa_basis_dependent", "RWA dynamics computed in the site basis with a Hamiltonian object used before inside eigenbasis_of(H) "
+                                      "differs from a fresh computation by %g (n=%d L=%d Nref=%d)" % (dev5, n, L, nref), "monitor", c)
                     G1 = liouvillian(np.array(ham.get_RWA_data()), None)
                     G2 = liouvillian(Hr, None)
                     for i in range(out.shape[0]):
